@@ -412,7 +412,7 @@ def main():
         os.chmod(htmp, 0o1777)
         # ... and, where the sandbox allows mount namespaces, the harness sees the whole file system read-only except its
         # output directory and a private /tmp (same path prefix as outside, so temporary-file names look as usual).
-        if harness_sandbox_available():
+        if harness_sandbox_available() and not os.path.realpath(outdir).startswith("/tmp/"):  # a development under /tmp would be hidden by the private /tmp
             script = ('mount --make-rprivate / && mount --bind "$0" "$0" && mount --bind "$1" /tmp && mount -o remount,bind,ro / '
                       '&& cd "$2" && shift 2 && exec "$@"')
             cmd = ["unshare", "-m", "sh", "-c", script, outdir, htmp, hcwd] + cmd
